@@ -52,7 +52,8 @@ def sampler_configs(draw, classes=CLASSES, max_d=4, target_kinds=("gauss", "gaus
     cfg = {"seed": draw(st.integers(0, 2**31)), "cls": cls, "d": d, "target": tgt,
            "start_u": [draw(st.floats(-1, 1)) for _ in range(d)],
            "width_log": [draw(st.floats(-1.3, 1.3)) for _ in range(d)],
-           "T": 1.0, "bounds": None, "display_progress": draw(st.sampled_from(list(progress)))}
+           "T": 1.0, "bounds": None, "display_progress": draw(st.sampled_from(list(progress))),
+           "caller_reuses_arrays": draw(st.sampled_from([False, False, True]))}
     if temperature == "maybe" and cls != "ensemble" and draw(st.booleans()):
         cfg["T"] = draw(st.sampled_from([0.3, 0.5, 2.0, 3.0, 10.0, 50.0, draw(st.floats(0.3, 50))]))
     want_bounds = (bounds == "always") or (bounds == "maybe" and draw(st.booleans()))
@@ -280,6 +281,23 @@ def build(cfg, target=None, record=True):
             ch = EnsembleSampler(posterior=tgt, starting_positions=pos, alpha=cfg["ens"]["alpha"], bounds=bounds_arg, **kw)
         else:
             raise KeyError(cls)
+    if cfg.get("caller_reuses_arrays"):
+        # the arrays handed to the constructor are the caller's: it may go on using them (a work buffer refilled for the next chain of
+        # a ladder, limits rewritten for a second sampler).  `info` keeps the values that were handed over; the arrays themselves are
+        # overwritten here, and nothing the sampler does afterwards may depend on that.
+        handed = {"start": start, "widths": widths, "positions": info.get("positions"), "inv_mass": info.get("inv_mass")}
+        if box is not None:
+            handed["lo"], handed["hi"] = lo, hi
+        for k, a in handed.items():
+            if isinstance(a, np.ndarray) and a.flags.writeable and a.dtype.kind in "fiu":
+                if k in info:
+                    info[k] = a.copy()
+                with np.errstate(all="ignore"):
+                    if a.dtype.kind == "f":
+                        a += 1e3 * (1.0 + np.abs(a))
+                    else:
+                        a[...] = np.iinfo(a.dtype).max - (a % 7).astype(a.dtype)
+        info["caller_reused_arrays"] = True
     return ch, tgt, info
 
 
